@@ -928,7 +928,7 @@ class vPeriod(TimeBase):
         # set the timezone identifier
         # does not support different timezones for start and end
         tzid = tzid_from_dt(start) if isinstance(start, datetime) else None
-        if tzid:
+        if tzid and tzid != 'UTC':
             self.params['TZID'] = tzid
 
         self.start = start
